@@ -6,11 +6,14 @@ import perscheck
 
 THEOREMS = {"Properties.C01": ["C01_kill", "C01_kill_op", "C01_restart_idem", "C01_first_start",
                                "C01_torn_write_reads_prefix", "C01_batch_delete_partial_refuted",
+                               "C01_power_always", "C01_power_model_simulates",
+                               "C01_power_batch_unsynced_refuted",
                                "C01_power_always_partial", "C01_nonvacuous"]}
 PINS = {"Properties.C01": {
     "_preamble": "From Coq Require Import List NArith ZArith Bool. From Kyro Require Import Model.Amap Model.Backend Model.Crash Proofs.BackendProofs. Open Scope N_scope.",
     "C01_kill": "forall (c : cfg) (ops : list op) (n : nat) (torn : bool), wf_cfg c = true -> norm_ok c -> known_c01 c ops n = false -> exists r, start c (cp_dir (crash_hist c ops n torn)) = SOk r /\\ (st_store r = cp_acked (crash_hist c ops n torn) \\/ st_store r = cp_inflight (crash_hist c ops n torn))",
     "C01_kill_op": "forall (c : cfg) (s : state) (o : op) s' out effs (k : nat) (torn : bool), wf_cfg c = true -> norm_ok c -> Inv c s -> step c s o = (s', out, effs) -> (k <= length effs)%nat -> known_op s o k = false -> exists r, start c (crash_kill (st_disk s) effs k torn) = SOk r /\\ (st_store r = st_store s \\/ st_store r = st_store s')",
+    "C01_power_always": "forall (c : cfg) (ops : list op) (n : nat) (l : loss), wf_cfg c = true -> norm_ok c -> c_fsync c = FsAlways -> known_power c ops n = false -> exists r, start c (crash_power c ops n l) = SOk r /\\ (st_store r = cp_acked (crash_hist c ops n false) \\/ st_store r = cp_inflight (crash_hist c ops n false))",
     "C01_restart_idem": "forall (c : cfg) (ops : list op) (k : nat) (torn : bool) s' effs, wf_cfg c = true -> norm_ok c -> recover_full c Strict (st_disk (run c ops)) = Ok (s', effs) -> (k <= length effs)%nat -> exists r, start c (crash_kill (st_disk (run c ops)) effs k torn) = SOk r /\\ st_store r = st_store (run c ops) /\\ st_store s' = st_store (run c ops)",
 }}
 
@@ -54,7 +57,7 @@ def run(ctx):
     ctx.trusted += [
         "ASSUMPTION norm_ok (see C02) and the premise known_c01 = false: the crash is not strictly inside the run of per-id frames of a batch_delete of >= 2 live ids (recorded finding C01-batch-delete-partial; model witness C01_batch_delete_partial_refuted, reproduced by the driver on every run)",
         "process-kill model of the file system: every completed libc call persists, the last write may be cut at any byte (a cut WAL frame is tail Torn - byte-level justification WalBytesProofs.torn_prefix, re-exported as C01_torn_write_reads_prefix; a cut temp file is unparsable); rename is atomic; this is the standard crash model, not ext4",
-        "power loss under fsync=always is NOT proved in general (C01_power_always_partial): Model/Crash.v `crash_power` (per-inode content versions since its last fsync, name-space versions since the last directory fsync, in-order loss choices) is evaluated at every crash index x 4 extreme loss choices on a subset of the seeded histories each run, and the driver enumerates the power-loss views of the REAL traces",
+        "power-loss model of the file system (Model/Crash.v, proved for EVERY loss choice in C01_power_always): un-synced content versions of a file are lost as a suffix, un-dirsynced directory operations are lost as a suffix, the two independently; file data and directory entries are the only state (no metadata-only effects such as file length without data); fsync/fdatasync make the whole file content durable, a directory fsync makes all earlier directory operations durable; under power loss the excluded batch-delete class extends to the instant before the batch's fsync completes (known_power; witness C01_power_batch_unsynced_refuted); the model's own oracle is additionally evaluated on a subset of the seeded histories and the driver enumerates the power-loss views of the REAL traces",
         "periodic-fsync clause: decided only by the driver's directed scenario (Periodic(50 ms), two acknowledged inserts, 200 ms idle, power loss); timing is not modelled in Coq",
         "LD_PRELOAD shim shims/fsshim.c (records open(O_CREAT)/write/fsync/fdatasync/ftruncate/rename/unlink with data), kvh-pers vfs (trace -> directory states), harness/p/c01/src/abs.rs (trace -> model effects: decoding with the engine's own WalEntry/Manifest/Snapshot types, file renaming by the model's fresh-id rule, collapsing of consecutive temp-file writes)",
         "start-up decision replicated from kyrodb_server main: recover (strict) when MANIFEST exists, else with_persistence (which refuses a directory with snapshots / non-empty WALs)",
